@@ -77,7 +77,7 @@ def finish(prop, tier, seed, reg, keys, presults, py_results, known, wall):
                 o["unknown"] += 1
                 continue
             o[v] += 1
-            if v == "sat" and o["cex"] is None:
+            if v == "sat" and (o["cex"] is None or (o["cex"].get("backend") == "skipped" and x.get("backend") != "skipped")):
                 o["cex"] = x
     violations = []
     undecided = []
